@@ -1092,6 +1092,94 @@ func cloneChainCode(d, c int) []byte {
 	return a.syscall("System.Runtime.GetTime").b
 }
 
+// ---------------------------------------------------------------------------------------------
+// cross-contract loops
+
+// xloopSpec is the drawn shape of one cross-contract loop program.
+type xloopSpec struct {
+	Form string   // forever (L: body; JMP L) | counted (body N times, counter on the alt stack)
+	N    int      // iterations of a counted loop
+	Body []string // call:<callee> (static APPCALL), dyn:<callee> (address popped from the stack), sys (GetTime in the caller), nop
+	// derived
+	Calls    int  // APPCALLs per iteration into deployed contracts
+	Observe  bool // every iteration enters a service handler (in the caller or in a callee)
+	MustSpin bool // nothing but a resource bound ends the request: every callee exists and returns
+}
+
+var xloopCallees = map[string][]byte{"echo": neoEchoCode, "time": neoTimeCode, "chain": neoChainCode, "loop": neoLoopCode}
+
+// genXloop emits a loop whose body calls into the contracts of the worker's ledger prefix: echo (NOP), time (one
+// service call), chain (APPCALLs time), loop (16 service calls in its own bounded loop), recur (calls itself
+// until the engine limit ends the request) or an address without a contract (ends the request).
+func (g *neoGen) genXloop() xloopSpec {
+	sp := xloopSpec{Form: pick(g.t, []string{"forever", "forever", "counted"}, "xform"), MustSpin: true}
+	if sp.Form == "counted" {
+		sp.N = pick(g.t, []int{1, 3, 100, 5000, 30000, 150000}, "xn")
+		sp.MustSpin = false
+	}
+	// stratified: a third of the programs make no service call at all (only these need the finite-gas route), a
+	// fifth contain one call that ends the request by itself
+	elems := []string{"call:echo", "call:time", "call:time", "call:chain", "call:loop", "dyn:echo", "dyn:time", "sys", "sys", "nop"}
+	if g.chance(33, "xquiet") {
+		elems = []string{"call:echo", "call:echo", "dyn:echo", "nop"}
+	}
+	n := g.intn(1, 3, "xbodyn")
+	for i := 0; i < n; i++ {
+		el := pick(g.t, elems, "xelem")
+		if i == 0 && (el == "sys" || el == "nop") && g.chance(70, "xfirstcall") {
+			el = elems[0] // mostly at least one call
+		}
+		sp.Body = append(sp.Body, el)
+	}
+	if g.chance(20, "xterm") {
+		sp.Body[g.intn(0, n-1, "xtermpos")] = pick(g.t, []string{"call:recur", "call:missing"}, "xtermk")
+	}
+	body := func() {
+		for _, el := range sp.Body {
+			switch el {
+			case "sys":
+				g.a.syscall("System.Runtime.GetTime").op(vm.DROP)
+				sp.Observe = true
+			case "nop":
+				g.a.op(vm.NOP)
+			case "call:recur": // [addr] APPCALL R with R = DUP; APPCALL <address from the stack>
+				g.a.pushBytes(addrBytes(neoRecurCode)).appcall(addrBytes(neoRecurCode))
+				sp.MustSpin = false
+			case "call:missing":
+				g.a.appcall(addrBytes([]byte("no such contract")))
+				sp.MustSpin = false
+			default:
+				name := el[len("call:"):]
+				if el[:4] == "dyn:" {
+					name = el[len("dyn:"):]
+					g.a.pushBytes(addrBytes(xloopCallees[name])).appcall(make([]byte, 20))
+				} else {
+					g.a.appcall(addrBytes(xloopCallees[name]))
+				}
+				sp.Calls++
+				if name != "echo" {
+					sp.Observe = true
+				}
+			}
+		}
+	}
+	if sp.Form == "forever" {
+		start := len(g.a.b)
+		body()
+		g.a.jmp(vm.JMP, int16(start-len(g.a.b)))
+	} else {
+		g.loop(int64(sp.N), body)
+	}
+	// sp.Calls etc. were accumulated by one emission of the body
+	return sp
+}
+
+func genXloopProgram(t *rapid.T) ([]byte, xloopSpec) {
+	g := &neoGen{t: t, a: &asm{}, tags: map[string]bool{}}
+	sp := g.genXloop()
+	return g.a.b, sp
+}
+
 // genProgram draws one program.
 func genProgram(t *rapid.T, methods map[string][]string, noCycleEnc, noDeepEq bool) (code []byte, tags []string, excluded int) {
 	g := &neoGen{t: t, a: &asm{}, methods: methods, noCycleEnc: noCycleEnc, noDeepEq: noDeepEq, tags: map[string]bool{}, big: harn.Thorough()}
